@@ -2,18 +2,18 @@ package main
 
 import (
 	"context"
-	"crypto/ecdsa"
-	"crypto/rand"
-	"crypto/x509"
 	"encoding/base64"
 	"encoding/hex"
 	"encoding/json"
 	"fmt"
-	"net"
+	"math/big"
 	"net/http/httptest"
 	"strings"
 
+	"go.step.sm/crypto/jose"
+
 	"github.com/smallstep/certificates/acme"
+	"github.com/smallstep/certificates/authority/provisioner"
 	c "verif/harness/common"
 	"verif/harness/cmd/c12/acmeenv"
 )
@@ -24,16 +24,28 @@ import (
 // itself or try key-change in between. After every request the stored status of every object of
 // the history, the certificates per order and the stored account statuses are compared with the
 // model (Verif.AcmeSM.astep). No virtual time here (expiry is the business of stage histories).
+// Since phase 4 the provisioner also enables device-attest-01 (step format) and the two Wire
+// challenges, so attestations, Wire responses and Wire finalizations travel through the real
+// middleware (the key the validators see is the one lookupJWK loaded for the kid), every other
+// environment serves its provisioner from the admin database (acmeenv.NewMigrated: ca.json ->
+// linkedca -> provisioner, the conversion glue), and with -c13 the issued leaf is compared with what
+// the order's authorizations validated (C13 stage `issued`).
 
 type ROp struct {
-	K    string // A n r a o f l x k
+	K    string // A n r t a o f l x k   (r on a Wire challenge is a Wire response)
 	Acct int
 	Obj  int
 	IDs  []string
-	How  string // r: ok | mismatch ; f: match | extra
+	How  string // r: ok | mismatch ; t: ok | badsig | wrongserial ; f: match | extra | missing
+	Az   int    `json:",omitempty"` // t: authorization named in the URL
+	Key  int    `json:",omitempty"` // t: attested key (1/2); f: CSR key number
 }
 
-type RCase struct{ Ops []ROp }
+type RCase struct {
+	Ops      []ROp
+	Migrated bool `json:",omitempty"` // the provisioner is served from the admin database
+	Names    bool `json:",omitempty"` // evaluate C13's predicate on every issued certificate
+}
 
 const rprov = "p0"
 
@@ -44,7 +56,12 @@ type rworld struct {
 	authzs []string
 	chals  []string
 	chAz   []int // authorization of each challenge
+	chTyp  []acme.ChallengeType
 	ids    [][]string
+	ordAz  [][]int
+	privs  []*jose.JSONWebKey // the accounts' private keys as JWK with the key id the server computes
+	proved map[int]bool
+	names  bool
 }
 
 func rindex(list []string, id string) int {
@@ -90,7 +107,13 @@ func (w *rworld) dump() string {
 	for _, id := range w.authzs {
 		if a, err := w.e.RealDB.GetAuthorization(bg, id); err == nil {
 			if a.Fingerprint != "" {
-				az.WriteString(strings.ToUpper(st(a.Status)) + "?")
+				n := "?"
+				for i, f := range attFPs {
+					if f == a.Fingerprint {
+						n = fmt.Sprint(i + 1)
+					}
+				}
+				az.WriteString(strings.ToUpper(st(a.Status)) + n)
 			} else {
 				az.WriteString(st(a.Status))
 			}
@@ -123,7 +146,20 @@ func (w *rworld) dump() string {
 	if len(cs) > 0 {
 		dots = strings.Join(cs, ".")
 	}
-	return os_.String() + "/" + dots + "/" + az.String() + "/" + ch.String() + "/" + ac.String()
+	var tk []string
+	for i, id := range w.orders {
+		if _, err := w.e.NoSQL.Get([]byte("wire_acme_oidc_token"), []byte(id)); err == nil {
+			tk = append(tk, fmt.Sprintf("o%d", i))
+		}
+		if _, err := w.e.NoSQL.Get([]byte("wire_acme_dpop_token"), []byte(id)); err == nil {
+			tk = append(tk, fmt.Sprintf("d%d", i))
+		}
+	}
+	out := os_.String() + "/" + dots + "/" + az.String() + "/" + ch.String()
+	if len(tk) > 0 {
+		out += "/" + strings.Join(tk, ".")
+	}
+	return out + "/" + ac.String()
 }
 
 func rclass(rec *httptest.ResponseRecorder, kind string) string {
@@ -141,8 +177,12 @@ func rclass(rec *httptest.ResponseRecorder, kind string) string {
 		return "notimpl"
 	case strings.HasSuffix(cl, ":serverInternal"), strings.HasSuffix(cl, ":?"):
 		return "ise"
+	case strings.HasSuffix(cl, ":rejectedIdentifier"):
+		if kind == "f" {
+			return "refused"
+		}
 	case strings.HasSuffix(cl, ":malformed"):
-		if kind == "n" {
+		if kind == "n" || kind == "f" {
 			return "malformed"
 		}
 		return "notfound"
@@ -154,7 +194,7 @@ func (w *rworld) exec(op ROp) (tok, out string) {
 	post := func(acct int, path string, payload []byte) *httptest.ResponseRecorder {
 		return w.e.Post(w.accs[acct], path, payload)
 	}
-	resp := ""
+	resp, viol := "", ""
 	statusOf := func(rec *httptest.ResponseRecorder) string {
 		var p struct {
 			Status string `json:"status"`
@@ -170,18 +210,52 @@ func (w *rworld) exec(op ROp) (tok, out string) {
 			return tok, "ise/" + w.dump()
 		}
 		w.accs = append(w.accs, a)
+		priv := &jose.JSONWebKey{Key: a.Key.Priv, Algorithm: "ES256", Use: "sig", KeyID: a.Key.Thumb()}
+		w.privs = append(w.privs, priv)
 		resp = fmt.Sprintf("created-%d", len(w.accs)-1)
 	case "n":
 		ks := make([]string, len(op.IDs))
 		var ids []map[string]string
+		wireOrder := false
 		for i, id := range op.IDs {
 			t, v, _ := strings.Cut(id, ":")
 			ids = append(ids, map[string]string{"type": t, "value": v})
-			ks[i] = "1" // acmeenv's provisioners enable http-01 (and device-attest-01) only
+			// how many challenges the identifier gets: the types api.challengeTypes lists for it that the
+			// served provisioner enables (after the migration to the admin database the Wire types are gone:
+			// linkedca has no counterpart for them, observation G1 in notes/C10.md)
+			var types []provisioner.ACMEChallenge
+			switch {
+			case t == "permanent-identifier":
+				types = []provisioner.ACMEChallenge{provisioner.DEVICE_ATTEST_01}
+			case t == "wireapp-user":
+				types = []provisioner.ACMEChallenge{provisioner.WIREOIDC_01}
+			case t == "wireapp-device":
+				types = []provisioner.ACMEChallenge{provisioner.WIREDPOP_01}
+			case t == "ip":
+				types = []provisioner.ACMEChallenge{provisioner.HTTP_01, provisioner.TLS_ALPN_01}
+			case strings.HasPrefix(v, "*."):
+				types = []provisioner.ACMEChallenge{provisioner.DNS_01}
+			default:
+				types = []provisioner.ACMEChallenge{provisioner.DNS_01, provisioner.HTTP_01, provisioner.TLS_ALPN_01}
+			}
+			cnt := 0
+			for _, ct := range types {
+				if w.e.Provs[rprov].IsChallengeEnabled(context.Background(), ct) {
+					cnt++
+				}
+			}
+			ks[i] = fmt.Sprint(cnt)
+			if t == "permanent-identifier" {
+				ks[i] += "a"
+			}
+			wireOrder = wireOrder || strings.HasPrefix(t, "wireapp-")
 		}
 		k := "-"
 		if len(ks) > 0 {
 			k = strings.Join(ks, ".")
+		}
+		if wireOrder {
+			k = "w" + k
 		}
 		tok = fmt.Sprintf("n:%d:0:%s", op.Acct, k)
 		pl, _ := json.Marshal(map[string]any{"identifiers": ids})
@@ -194,41 +268,108 @@ func (w *rworld) exec(op ROp) (tok, out string) {
 			_ = json.Unmarshal(rec.Body.Bytes(), &o)
 			w.orders = append(w.orders, oid)
 			w.ids = append(w.ids, op.IDs)
+			var azs []int
 			for _, u := range o.Authorizations {
 				azID := acmeenv.LastPathElem(u)
+				azs = append(azs, len(w.authzs))
 				w.authzs = append(w.authzs, azID)
 				if az, err := w.e.RealDB.GetAuthorization(context.Background(), azID); err == nil {
 					for _, ch := range az.Challenges {
 						w.chals = append(w.chals, ch.ID)
 						w.chAz = append(w.chAz, len(w.authzs)-1)
+						w.chTyp = append(w.chTyp, ch.Type)
 					}
 				}
 			}
+			w.ordAz = append(w.ordAz, azs)
 			resp = fmt.Sprintf("created-%d", len(w.orders)-1)
 		} else {
 			resp = rclass(rec, "n")
 		}
 	case "r":
-		out := map[string]string{"ok": "s", "mismatch": "j"}[op.How]
-		tok = fmt.Sprintf("r:%d:%d:0:%s", op.Acct, op.Obj, out)
+		out := "j"
+		if op.How == "ok" {
+			out = "s"
+		}
 		chID, azID := w.id(w.chals, op.Obj), "az"
+		payload := []byte("{}")
+		letter := "r"
 		if op.Obj >= 0 && op.Obj < len(w.chals) {
 			azID = w.authzs[w.chAz[op.Obj]]
 			if x, err := w.e.RealDB.GetChallenge(context.Background(), chID, ""); err == nil {
-				path := "/.well-known/acme-challenge/" + x.Token
-				if op.How == "ok" {
-					w.e.Client.Set(path, x.Token+"."+w.accs[op.Acct].Key.Thumb())
-				} else {
-					w.e.Client.Set(path, "something.else")
+				switch {
+				case isWire(x.Type):
+					// the audience is the challenge URL as the linker of the environment prints it
+					letter = "w"
+					if x.Type == acme.WIREDPOP01 {
+						letter = "W"
+					}
+					aud := acmeenv.URL(acmeenv.Path(rprov, "challenge", azID, chID))
+					if p, err := wirePayload(x.Type, op.How, w.privs[op.Acct], x.Value, x.Token, aud); err == nil {
+						payload = p
+					}
+				case x.Type == acme.DEVICEATTEST01:
+					// answered without an attestation object: the validator refuses it
+					out = "j"
+				default:
+					path := "/.well-known/acme-challenge/" + x.Token
+					if op.How == "ok" {
+						w.e.Client.Set(path, x.Token+"."+w.accs[op.Acct].Key.Thumb())
+					} else {
+						w.e.Client.Set(path, "something.else")
+					}
 				}
 			}
 		}
-		rec := post(op.Acct, acmeenv.Path(rprov, "challenge", azID, chID), []byte("{}"))
+		tok = fmt.Sprintf("%s:%d:%d:0:%s", letter, op.Acct, op.Obj, out)
+		if letter == "r" && op.Obj >= 0 && op.Obj < len(w.chals) && w.chTyp[op.Obj] == acme.DEVICEATTEST01 {
+			// a device-attest-01 challenge posted through its own authorization's URL
+			tok = fmt.Sprintf("t:%d:%d:%d:0:%s", op.Acct, op.Obj, w.chAz[op.Obj], out)
+		}
+		rec := post(op.Acct, acmeenv.Path(rprov, "challenge", azID, chID), payload)
 		if rec.Code == 200 {
 			resp = statusOf(rec)
 		} else {
 			resp = rclass(rec, "r")
 		}
+		w.noteProved(op)
+	case "t":
+		// device-attest-01 response through the URL of authorization op.Az
+		chID := w.id(w.chals, op.Obj)
+		akey := op.Key
+		if akey < 1 || akey > len(attKeys) {
+			akey = 1
+		}
+		payload := []byte("{}")
+		attestable, isAttest := true, false
+		if x, err := w.e.RealDB.GetChallenge(context.Background(), chID, ""); err == nil {
+			isAttest = x.Type == acme.DEVICEATTEST01
+			ka := x.Token + "." + w.accs[op.Acct].Key.Thumb()
+			payload, _ = attestPayload(ka, x.Value, op.How, attKeys[akey-1])
+			if n, ok := new(big.Int).SetString(x.Value, 10); !ok || n.String() != x.Value {
+				attestable = false
+			}
+		}
+		out := "j"
+		if op.How == "ok" && attestable {
+			out = fmt.Sprintf("s%d", akey)
+		}
+		tok = fmt.Sprintf("t:%d:%d:%d:0:%s", op.Acct, op.Obj, op.Az, out)
+		if !isAttest {
+			// not a device-attest-01 challenge: an http-01 response whose proof is not in place
+			tok = fmt.Sprintf("r:%d:%d:0:t", op.Acct, op.Obj)
+			if op.Obj >= 0 && op.Obj < len(w.chals) && isWire(w.chTyp[op.Obj]) {
+				l := map[acme.ChallengeType]string{acme.WIREOIDC01: "w", acme.WIREDPOP01: "W"}[w.chTyp[op.Obj]]
+				tok = fmt.Sprintf("%s:%d:%d:0:j", l, op.Acct, op.Obj)
+			}
+		}
+		rec := post(op.Acct, acmeenv.Path(rprov, "challenge", w.id(w.authzs, op.Az), chID), payload)
+		if rec.Code == 200 {
+			resp = statusOf(rec)
+		} else {
+			resp = rclass(rec, "r")
+		}
+		w.noteProved(op)
 	case "a":
 		tok = fmt.Sprintf("a:%d:%d:0", op.Acct, op.Obj)
 		rec := post(op.Acct, acmeenv.Path(rprov, "authz", w.id(w.authzs, op.Obj)), nil)
@@ -246,28 +387,41 @@ func (w *rworld) exec(op ROp) (tok, out string) {
 			resp = rclass(rec, "o")
 		}
 	case "f":
-		tmpl := &x509.CertificateRequest{}
+		var ids []string
 		if op.Obj >= 0 && op.Obj < len(w.ids) {
-			for _, id := range w.ids[op.Obj] {
-				t, v, _ := strings.Cut(id, ":")
-				if t == "ip" {
-					tmpl.IPAddresses = append(tmpl.IPAddresses, net.ParseIP(v))
-				} else {
-					tmpl.DNSNames = append(tmpl.DNSNames, v)
-				}
+			ids = w.ids[op.Obj]
+		}
+		csr, der, err := buildCSR(ids, op.How, op.Key)
+		if err != nil {
+			return "", "csr-error"
+		}
+		keyNo := op.Key
+		if keyNo < 0 || keyNo > len(attKeys) {
+			keyNo = 0
+		}
+		matches := op.Obj >= 0 && op.Obj < len(w.ids) && csrMatchesIDs(ids, csr)
+		tok = fmt.Sprintf("f:%d:%d:0:%d:%s10", op.Acct, op.Obj, keyNo, c.B(matches))
+		pl, _ := json.Marshal(map[string]string{"csr": base64.RawURLEncoding.EncodeToString(der)})
+		was := ""
+		if op.Obj >= 0 && op.Obj < len(w.orders) {
+			if o, err := w.e.RealDB.GetOrder(context.Background(), w.orders[op.Obj]); err == nil {
+				was = st(o.Status)
 			}
 		}
-		if op.How == "extra" {
-			tmpl.DNSNames = append(tmpl.DNSNames, "extra.example.net")
-		}
-		der, _ := x509.CreateCertificateRequest(rand.Reader, tmpl, csrKey.(*ecdsa.PrivateKey))
-		tok = fmt.Sprintf("f:%d:%d:0:0:%s10", op.Acct, op.Obj, c.B(op.How != "extra" && op.Obj >= 0 && op.Obj < len(w.ids)))
-		pl, _ := json.Marshal(map[string]string{"csr": base64.RawURLEncoding.EncodeToString(der)})
 		rec := post(op.Acct, acmeenv.Path(rprov, "order", w.id(w.orders, op.Obj), "finalize"), pl)
 		if rec.Code == 200 {
 			resp = statusOf(rec)
 		} else {
 			resp = rclass(rec, "f")
+			if resp == "malformed" && (op.Obj < 0 || op.Obj >= len(w.orders)) {
+				resp = "notfound"
+			}
+		}
+		// C13 end to end: the order turned valid in this request
+		if op.Obj >= 0 && op.Obj < len(w.orders) && was != "" && was != "v" {
+			if o, err := w.e.RealDB.GetOrder(context.Background(), w.orders[op.Obj]); err == nil && o.Status == acme.StatusValid {
+				viol = w.issuedOracle(op, matches)
+			}
 		}
 	case "l":
 		tok = fmt.Sprintf("l:%d:%d:0", op.Acct, op.Obj)
@@ -306,12 +460,74 @@ func (w *rworld) exec(op ROp) (tok, out string) {
 		tok = fmt.Sprintf("k:%d", op.Acct)
 		resp = rclass(post(op.Acct, acmeenv.Path(rprov, "key-change"), []byte(`{}`)), "k")
 	}
-	return tok, resp + "/" + w.dump()
+	out = resp + "/" + w.dump()
+	if viol != "" {
+		out += "/" + viol
+	}
+	return tok, out
+}
+
+// noteProved: the proof was in place when the response was sent and the server stored the challenge valid
+func (w *rworld) noteProved(op ROp) {
+	if op.How != "ok" || op.Obj < 0 || op.Obj >= len(w.chals) {
+		return
+	}
+	if x, err := w.e.RealDB.GetChallenge(context.Background(), w.chals[op.Obj], ""); err == nil && x.Status == acme.StatusValid && x.AccountID == w.accs[op.Acct].ID {
+		if w.proved == nil {
+			w.proved = map[int]bool{}
+		}
+		w.proved[op.Obj] = true
+	}
+}
+
+// issuedOracle: the clauses of stage histories that speak about an order turning valid, on the
+// trace of the router: finalize by the owner with matching names, every authorization with an
+// accepted proof, the attested key, and (with -c13) the names of the leaf
+func (w *rworld) issuedOracle(op ROp, matches bool) string {
+	i := op.Obj
+	if !matches {
+		return "VIOL:order-valid-cause"
+	}
+	for _, a := range w.ordAz[i] {
+		ok := false
+		for ch, az := range w.chAz {
+			ok = ok || (az == a && w.proved[ch])
+		}
+		if !ok {
+			return "VIOL:certificate-for-unvalidated-identifier"
+		}
+	}
+	if w.names {
+		if v := certNamesOf(w.e.RealDB, w.orders[i]); v != "" {
+			return v
+		}
+	}
+	for _, id := range w.ids[i] {
+		if strings.HasPrefix(id, "permanent-identifier:") {
+			// the key recorded on the order's first fingerprinted authorization is the CSR's
+			rec := 0
+			for _, a := range w.ordAz[i] {
+				if az, err := w.e.RealDB.GetAuthorization(context.Background(), w.authzs[a]); err == nil && az.Fingerprint != "" {
+					for n, f := range attFPs {
+						if f == az.Fingerprint {
+							rec = n + 1
+						}
+					}
+					break
+				}
+			}
+			if rec == 0 || rec != op.Key {
+				return "VIOL:attested-key"
+			}
+			break
+		}
+	}
+	return ""
 }
 
 func runRouter(e *acmeenv.Env, k *RCase) (line, out string) {
 	js, _ := json.Marshal(k)
-	w := &rworld{e: e}
+	w := &rworld{e: e, names: k.Names}
 	toks := make([]string, 0, len(k.Ops))
 	outs := make([]string, 0, len(k.Ops))
 	for _, op := range k.Ops {
@@ -351,11 +567,14 @@ func runRouter(e *acmeenv.Env, k *RCase) (line, out string) {
 var ridPool = []string{"dns:a.example.com", "dns:b.example.com", "dns:www.example.org", "ip:10.0.0.1", "ip:fd00::1"}
 
 func genRouter(r *c.Rng) *RCase {
-	k := &RCase{Ops: []ROp{{K: "A"}, {K: "A"}}}
+	k := &RCase{Ops: []ROp{{K: "A"}, {K: "A"}}, Migrated: r.Chance(1, 2)}
 	type so struct {
-		acct  int
-		chals []int
-		done  int
+		acct   int
+		chals  []int
+		firstA int
+		done   int
+		pid    bool
+		akey   int
 	}
 	var orders []so
 	nchal, nauthz := 0, 0
@@ -363,10 +582,19 @@ func genRouter(r *c.Rng) *RCase {
 	n := 8 + r.Intn(18)
 	newOrder := func(acct int) {
 		cnt := 1 + r.Intn(2)
-		o := so{acct: acct}
+		o := so{acct: acct, firstA: nauthz}
 		var ids []string
+		switch r.Intn(6) {
+		case 0: // attested order
+			ids, cnt, o.pid = []string{c.Pick(r, []string{"permanent-identifier:1234567", "permanent-identifier:42"})}, 1, true
+		case 1: // Wire order
+			ids, cnt = wireIDs(r.Chance(1, 8)), 2
+		default:
+			for i := 0; i < cnt; i++ {
+				ids = append(ids, c.Pick(r, ridPool))
+			}
+		}
 		for i := 0; i < cnt; i++ {
-			ids = append(ids, c.Pick(r, ridPool))
 			o.chals = append(o.chals, nchal)
 			nchal++
 			nauthz++
@@ -395,6 +623,19 @@ func genRouter(r *c.Rng) *RCase {
 		case 0:
 			newOrder(r.Intn(2))
 		case 1, 2, 3, 4, 5:
+			if o.pid {
+				az := o.firstA
+				if r.Chance(1, 5) {
+					az = r.Intn(nauthz + 1)
+				}
+				o.akey = 1 + r.Intn(2)
+				how := "ok"
+				if r.Chance(1, 6) {
+					how = c.Pick(r, []string{"badsig", "wrongserial"})
+				}
+				k.Ops = append(k.Ops, ROp{K: c.Pick(r, []string{"t", "t", "t", "r"}), Acct: acct, Obj: o.chals[0], Az: az, Key: o.akey, How: how})
+				break
+			}
 			if o.done < len(o.chals) && r.Chance(3, 4) {
 				k.Ops = append(k.Ops, ROp{K: "r", Acct: acct, Obj: o.chals[o.done], How: "ok"})
 				if acct == o.acct && !dead[acct] {
@@ -404,19 +645,22 @@ func genRouter(r *c.Rng) *RCase {
 				k.Ops = append(k.Ops, ROp{K: "r", Acct: acct, Obj: c.Pick(r, o.chals), How: c.Pick(r, []string{"ok", "mismatch"})})
 			}
 		case 6:
-			first := 0
-			for _, p := range orders[:oi] {
-				first += len(p.chals)
-			}
-			k.Ops = append(k.Ops, ROp{K: "a", Acct: acct, Obj: first + r.Intn(len(o.chals))})
+			k.Ops = append(k.Ops, ROp{K: "a", Acct: acct, Obj: o.firstA + r.Intn(len(o.chals))})
 		case 7, 8:
 			k.Ops = append(k.Ops, ROp{K: "o", Acct: acct, Obj: oi})
 		case 9, 10, 11, 12:
 			how := "match"
 			if r.Chance(1, 8) {
-				how = "extra"
+				how = c.Pick(r, []string{"extra", "missing"})
 			}
-			k.Ops = append(k.Ops, ROp{K: "f", Acct: acct, Obj: oi, How: how})
+			key := 0
+			if o.pid {
+				key = o.akey
+				if r.Chance(1, 6) {
+					key = r.Intn(3)
+				}
+			}
+			k.Ops = append(k.Ops, ROp{K: "f", Acct: acct, Obj: oi, How: how, Key: key})
 		case 13:
 			k.Ops = append(k.Ops, ROp{K: "l", Acct: acct, Obj: acct})
 		case 14:
@@ -437,6 +681,14 @@ func genRouter(r *c.Rng) *RCase {
 
 func cornerRouter() []*RCase {
 	return []*RCase{
+		// attested order and Wire order through the real middleware, on a provisioner served from the admin database
+		{Migrated: true, Ops: []ROp{{K: "A"}, {K: "n", IDs: []string{"permanent-identifier:1234567"}}, {K: "r", Obj: 0, How: "ok"}, {K: "n", IDs: []string{"permanent-identifier:42"}},
+			{K: "t", Obj: 1, Az: 1, Key: 2, How: "badsig"}, {K: "t", Obj: 1, Az: 1, Key: 2, How: "ok"}, {K: "o", Obj: 1}, {K: "f", Obj: 1, How: "match", Key: 1}, {K: "f", Obj: 1, How: "match", Key: 2}}},
+		// (G1: from the admin database the provisioner has lost its Wire challenge types: a Wire order gets authorizations without challenges)
+		{Migrated: true, Ops: []ROp{{K: "A"}, {K: "n", IDs: wireIDs()}, {K: "a", Obj: 0}, {K: "o"}, {K: "f", How: "match"}, {K: "n", IDs: []string{"dns:a.example.com"}}, {K: "r", Obj: 0, How: "ok"}, {K: "f", Obj: 1, How: "match"}}},
+		{Ops: []ROp{{K: "A"}, {K: "n", IDs: wireIDs()}, {K: "r", Obj: 0, How: "ok"}, {K: "f", How: "match"}, {K: "r", Obj: 1, How: "mismatch"}, {K: "n", IDs: wireIDs()},
+			{K: "r", Obj: 2, How: "ok"}, {K: "r", Obj: 3, How: "ok"}, {K: "o", Obj: 1}, {K: "f", Obj: 1, How: "extra"}, {K: "f", Obj: 1, How: "match"}, {K: "x"}, {K: "r", Obj: 0, How: "ok"}}},
+		{Ops: []ROp{{K: "A"}, {K: "n", IDs: wireIDs(true)}, {K: "r", Obj: 0, How: "ok"}, {K: "r", Obj: 1, How: "ok"}, {K: "f", How: "match"}}},
 		{Ops: []ROp{{K: "A"}, {K: "A"}, {K: "n", IDs: []string{"dns:a.example.com"}}, {K: "r", Obj: 0, How: "ok"}, {K: "o"}, {K: "x"},
 			{K: "o"}, {K: "f", How: "match"}, {K: "n", IDs: []string{"dns:b.example.com"}}, {K: "x"}, {K: "k"}, {K: "l"},
 			{K: "o", Acct: 1}, {K: "n", Acct: 1, IDs: []string{"dns:b.example.com"}}, {K: "k", Acct: 1}}},
